@@ -39,7 +39,7 @@ def run_demo(wt, d):
     if os.path.exists(script):
         rc, out = sh(f"bash {script}", wt, timeout=1200)
         import re
-        m = re.findall(r"exit code: *(-?\d+)", out)  # several scripts print the demo's exit code and return 0
+        m = re.findall(r"exit (?:code|status): *(-?\d+)", out)  # several scripts print the demo's exit code and return 0
         if rc == 0 and m:
             rc = int(m[-1])
         return rc, out
